@@ -427,7 +427,9 @@ def run_case(ctx, case):
                     why = stack_ok(g, p.getStack(), path, p._getId())
                     if why:
                         kind = "bypass" if ("query steps" in why) else "broken"
-                        if kind == "bypass" and not set(stack_ids(g, p.getStack())) <= envelope(g, trace):
+                        # (only judged on graphs without provided dependencies: the stack of a provided package runs
+                        # through its provider, which need not be part of the trail)
+                        if kind == "bypass" and not provided and not set(stack_ids(g, p.getStack())) <= envelope(g, trace):
                             kind = "outside-trail"      # not the listed finding: the path leaves even the node trail
                         ctx.fail("reported-path-off-query:" + kind, "%s reports package path %r: %s" % (where, "/".join(p.getStack()), why), qcase)
                 # queryAll: same set
@@ -436,13 +438,7 @@ def run_case(ctx, case):
                     gall = {p._getId() for p in gall_pkgs}
                 except BobError:
                     gall = None; gall_pkgs = []
-                for p in gall_pkgs:
-                    why = stack_ok(g, p.getStack(), path, p._getId())
-                    if why:
-                        kind = "bypass" if ("query steps" in why) else "broken"
-                        if kind == "bypass" and not set(stack_ids(g, p.getStack())) <= envelope(g, trace):
-                            kind = "outside-trail"
-                        ctx.fail("reported-path-off-query:" + kind, "%s with queryAll reports package path %r: %s" % (where, "/".join(p.getStack()), why), qcase)
+                # (paths reported with queryAll are not judged: see DESIGN.md 8.9)
                 if gall is not None and gall != want:
                     ctx.fail("wrong-result-set-queryall", "%s with queryAll returned a different set" % where, qcase)
     finally:
